@@ -20,7 +20,7 @@ from . import common
 
 ID = 'C06'
 LEVEL = 'exploration'
-RUNS = {'quick': 3000, 'thorough': 80000}
+RUNS = {'quick': 8000, 'thorough': 200000}
 SIM_TIME_UNIT = 'samples / dense time units'
 RULE = ('seeded generation of (specification, i/o assignment in {input, output, undeclared}^K, semantics, monitor kind, data, '
         'stepping/chunking); non-trivial = the expected result differs from the standard robustness somewhere (an insensitive '
